@@ -83,6 +83,18 @@ func tokOf(a string) string {
 			return "CI"
 		}
 		return "C"
+	case name == "demo":
+		// -demo decides what ReplMain registers (RegisterDemoStructs, ImportDemoData): its own token
+		if has {
+			b, err := strconv.ParseBool(val)
+			if err != nil {
+				return "X"
+			}
+			if !b {
+				return "Bd=0"
+			}
+		}
+		return "Bd"
 	case boolFlags[name]:
 		if has {
 			if _, err := strconv.ParseBool(val); err != nil {
@@ -140,6 +152,15 @@ func cmdShapes(tier string, rng *lib.Rng) []cmdShape {
 		}
 		k++
 	}
+	// -demo in the flag part, before and after the sandbox flag, with a script and in -c mode; with its controls
+	add([]string{"-demo", "-sandbox", "-quiet", "@SCRIPT@"})
+	add([]string{"--sandbox", "-demo", "@SCRIPT@", "-quiet"})
+	add([]string{"-sandbox=true", "-demo=true", "-exitonfail", "@SCRIPT@"})
+	add([]string{"-sandbox", "-demo=false", "@SCRIPT@"})
+	add([]string{"-demo", "-sandbox", "-c", "@TEXT@"})
+	add([]string{"-sandbox", "-countcalls", "-demo", "-c", "@TEXT@", "x"})
+	add([]string{"-demo", "-quiet", "@SCRIPT@"})
+	add([]string{"-demo", "-c", "@TEXT@"})
 	// -c mode: the text is a flag value, further flags may follow it
 	add([]string{"-sandbox", "-c", "@TEXT@"})
 	add([]string{"-c", "@TEXT@", "-sandbox"})
@@ -300,6 +321,7 @@ type cmdlineDiff struct {
 	Unexpected []string `json:"unexpected"` // defined under this command line, not bound in the sandbox + StandardSetup
 	Missing    []string `json:"missing"`
 	ProbeOK    bool     `json:"probe_ok"`
+	Plan       string   `json:"plan"` // sandboxed | open (constructor) + "+demo" when the names ImportDemoData adds are defined
 }
 
 // runCmdlines appends its jobs (with results) to jobs/results and returns the name differences.
@@ -366,6 +388,10 @@ func runCmdlines(root, zygoBin, tier string, rng *lib.Rng, candidates, specials 
 				o.res = append(o.res, cres[i])
 			}
 			d := cmdlineDiff{Argv: shape.String(), Toks: shape.Toks(), ProbeOK: ok}
+			expected := expected
+			if demoOn(shape) {
+				expected = withDemo(expected)
+			}
 			if ok {
 				for _, n := range candidates {
 					_, exp := expected[n]
@@ -392,6 +418,20 @@ func runCmdlines(root, zygoBin, tier string, rng *lib.Rng, candidates, specials 
 					if !def[n] && open[n] != "macro" && !unsafe(n) {
 						d.Observed = "mixed"
 					}
+				}
+			}
+			if d.Observed == "sandboxed" || d.Observed == "open" {
+				d.Plan = d.Observed
+				nd := 0
+				for _, n := range demoNames {
+					if def[n] {
+						nd++
+					}
+				}
+				if nd > 0 && nd == len(demoNames) {
+					d.Plan += "+demo"
+				} else if nd > 0 {
+					d.Plan += "+somedemo"
 				}
 			}
 			o.all = d
@@ -460,7 +500,7 @@ func modelSaysSandboxed(shape cmdShape) string {
 			on = true
 		case "S=0":
 			on = false
-		case "B", "VI", "CI", "I", "I=1", "I=0", "E", "E=1", "E=0":
+		case "B", "Bd", "Bd=0", "VI", "CI", "I", "I=1", "I=0", "E", "E=1", "E=0":
 		case "V", "C":
 			i++
 		case "X":
@@ -473,6 +513,41 @@ func modelSaysSandboxed(shape cmdShape) string {
 		return "yes"
 	}
 	return "no"
+}
+
+// demoOn: the flag part of the command line leaves -demo on (scheduling of the expected name set only; the plan
+// ReplMain follows is the Coq model's, from the generated replmain_plans)
+func demoOn(shape cmdShape) bool {
+	on := false
+	toks := strings.Fields(shape.Toks())
+	for i := 0; i < len(toks); i++ {
+		switch toks[i] {
+		case "Bd":
+			on = true
+		case "Bd=0":
+			on = false
+		case "S", "S=1", "S=0", "B", "VI", "CI", "I", "I=1", "I=0", "E", "E=1", "E=0":
+		case "V", "C":
+			i++
+		default:
+			i = len(toks)
+		}
+	}
+	return on
+}
+
+// demoNames: what ImportDemoData adds to a sandbox + StandardSetup, asked of the real code (set by main)
+var demoNames []string
+
+func withDemo(expected map[string]string) map[string]string {
+	m := map[string]string{}
+	for k, v := range expected {
+		m[k] = v
+	}
+	for _, n := range demoNames {
+		m[n] = "function"
+	}
+	return m
 }
 
 // special forms that are flow control / definition syntax: calling them with a canary path proves nothing
